@@ -14,6 +14,7 @@ require (
 	github.com/meshplus/bitxhub-kit v1.28.0
 	github.com/meshplus/bitxhub-model v1.28.1-0.20230411032618-24ca54eec606
 	github.com/meshplus/eth-kit v1.28.0
+	github.com/meshplus/go-lightp2p v1.28.0
 	github.com/sirupsen/logrus v1.8.1
 )
 
